@@ -221,10 +221,18 @@ def r31(ctx, repo, upd):
                    "by a later diff", node=sn,
                    label="snapshot after recomputation")
     # feat2filter derives from newkeys with the min/max suffix rule
-    suffix = [n for n in walk(upd) if isinstance(n, ast.Call)
-              and last_attr(n) == "endswith" and n.args
-              and const_str(n.args[0]) in (" min", " max")]
-    got = {const_str(n.args[0]) for n in suffix}
+    suffix = []
+    got = set()
+    for n in walk(upd):
+        if isinstance(n, ast.Call) and last_attr(n) == "endswith" and n.args:
+            a0 = n.args[0]
+            vals = [const_str(a0)] if const_str(a0) else (
+                [const_str(x) for x in a0.elts]
+                if isinstance(a0, (ast.Tuple, ast.List)) else [])
+            hit = {v for v in vals if v in (" min", " max")}
+            if hit:
+                suffix.append(n)
+                got |= hit
     ctx.ob("R3.1", got == {" min", " max"},
            "both ' min' and ' max' keys trigger a recomputation"
            if got == {" min", " max"} else
